@@ -22,18 +22,26 @@ ASSUMPTIONS = ["with a repeated heading text only conservation of the ACE multis
                "(C15's wording); remarks may merge", "TCAM formula as stated in C15"]
 REQUIRED = ["grouped_2plus_blocks", "text_unchanged_by_group_ungroup", "permutation_moved_block",
             "sort_restored", "tcam_with_group_members", "heading_only_block", "no_leading_heading",
-            "mixed_list_regrouped"]
+            "mixed_list_regrouped", "marker_blocks", "indent_blocks"]
 PREFIXES = ["= ", "=", "x", ""]
 
 
-def items(seed):
+# heading markers with regular-expression metacharacters, each with a plain remark that a pattern
+# reading of the marker would match although it does not start with the marker
+MARKERS = [("*** ", "** x"), ("+++ ", "++ x"), ("[DMZ] ", "D zone"), ("(core) ", "core x"),
+           ("v1.", "v10 legacy"), ("a|b ", "a x"), ("$ ", " x"), ("\\d ", "1 x"), ("= ", "=x")]
+INDENTS = [" ", "    ", "\t", ""]
+
+
+def items(seed, marker="= ", near="plain =text"):
     al = {a.label: a for a in G.addr_alphabet(seed)}
     gr = {a.group: a for a in G.group_alphabet(seed)}
     none = G.PortX()
     X, I = G.AceX, PR.Item  # noqa
     return [
-        I("h1", None, "= alpha, x"), I("h2", None, "= beta"), I("h1_again", None, "= alpha, x"),
-        I("remark", None, "plain =text"), I("remark_eq", None, "=separator"),
+        I("h1", None, f"{marker}alpha, x"), I("h2", None, f"{marker}beta"),
+        I("h1_again", None, f"{marker}alpha, x"),
+        I("remark", None, near), I("remark_eq", None, "=separator"),
         I("ace1", X("permit", 0, al["host1"], none, al["any"], none)),
         I("ace2", X("deny", 6, al["any"], none, al["net24"], G.PortX("eq", (80,)))),
         I("ace3", X("permit", 17, al["net30"], none, al["any"], none, (), ("log",))),
@@ -52,9 +60,16 @@ def describe(tier, seed):
                 permutations="all permutations of the top-level items (<= 5! per state)")
 
 
+MARK_SUB = [0, 1, 3, 5, 6]  # h1, h2, near-miss remark, two entries
+
+
 def units(tier, seed):
     n = len(items(seed))
     out = [dict(first=None)]
+    for mi in range(len(MARKERS)):
+        out.append(dict(kind="markers", marker=mi))
+    for ii in range(len(INDENTS)):
+        out.append(dict(kind="indents", indent=ii))
     for a in range(n):
         for b in range(n):
             out.append(dict(first=[a, b]))
@@ -63,6 +78,20 @@ def units(tier, seed):
 
 def run_unit(unit, ctx):
     n = len(items(ctx.seed))
+    if unit.get("kind") == "markers":
+        # group_by is plain text, whatever characters it contains
+        marker, _near = MARKERS[unit["marker"]]
+        for ln in range(1, (4 if ctx.tier == "quick" else 5) + 1):
+            for idx in product(MARK_SUB, repeat=ln):
+                for p in (marker, marker.rstrip()) if marker.rstrip() != marker else (marker,):
+                    script(idx, p, ctx, "ios" if sum(idx) % 2 else "nxos", marker=unit["marker"])
+        return
+    if unit.get("kind") == "indents":
+        # the indentation setting is part of the text that grouping must leave unchanged
+        for ln in range(1, 5):
+            for idx in product(MARK_SUB, repeat=ln):
+                script(idx, "= ", ctx, "ios" if sum(idx) % 2 else "nxos", indent=INDENTS[unit["indent"]])
+        return
     if unit["first"] is None:
         for a in range(n):
             for p in PREFIXES:
@@ -79,7 +108,8 @@ def run_unit(unit, ctx):
 
 
 def replay(case, ctx):
-    script(tuple(case["idx"]), case["prefix"], ctx, case.get("platform", "ios"))
+    script(tuple(case["idx"]), case["prefix"], ctx, case.get("platform", "ios"),
+           marker=case.get("marker"), indent=case.get("indent"))
 
 
 def _tcam_model(lst):
@@ -95,14 +125,17 @@ def _ace_multiset(acl):
     return sorted(PR.strip_seq(ln) for ln in PR.flat_lines(acl) if not PR.strip_seq(ln).startswith("remark"))
 
 
-def script(idx, prefix, ctx, platform="ios"):
-    its = items(ctx.seed)
+def script(idx, prefix, ctx, platform="ios", marker=None, indent=None):
+    its = items(ctx.seed) if marker is None else items(ctx.seed, *MARKERS[marker])
     lst = [its[i] for i in idx]
     ctx.ev()
     case = dict(kind="script", idx=list(idx), prefix=prefix, platform=platform,
-                lines=[i.text(platform) for i in lst])
+                lines=[i.text(platform) for i in lst], marker=marker, indent=indent)
+    kw = {} if indent is None else dict(indent=indent)
     try:
-        acl = PR.build_acl(lst, platform)
+        acl = PR.build_acl(lst, platform, **kw)
+        if indent is not None and acl.indent != indent:
+            raise AssertionError(f"harness: indent {acl.indent!r}")
     except Exception as ex:  # noqa
         ctx.viol("harness:build", case, repr(ex), "built")
         return
@@ -135,6 +168,23 @@ def script(idx, prefix, ctx, platform="ios"):
             return
         nblocks = len(acl.items)
         blocks = PR.blocks(acl)
+        if distinct:
+            # block structure predicted from the item list: a block starts at every heading, the
+            # items before the first heading form one block, no prefix = no blocks
+            sizes = []
+            for it in lst:
+                is_head = bool(prefix) and not it.is_ace and it.remark.startswith(prefix)
+                if not prefix or is_head or not sizes:
+                    sizes.append(1)
+                else:
+                    sizes[-1] += 1
+            if [len(lines) for _n, lines in blocks] != sizes:
+                ctx.viol("Acl.group:block_structure", case, [len(lines) for _n, lines in blocks], sizes)
+                return
+            if marker is not None and len(sizes) > 1:
+                ctx.out("marker_blocks")
+            if indent is not None and len(sizes) > 1:
+                ctx.out("indent_blocks")
         if prefix and prefix != "x":
             # every block except possibly the first starts with its heading; inner order intact
             flat = [ln for _n, lines in blocks for ln in lines]
@@ -214,7 +264,7 @@ def script(idx, prefix, ctx, platform="ios"):
         if prefix and distinct and heads:
             from cisco_acl import Ace
 
-            acl2 = PR.build_acl(lst, platform)
+            acl2 = PR.build_acl(lst, platform, **kw)
             acl2.group(prefix)
             acl2.append(Ace("permit icmp any any", platform=platform))
             before = PR.flat_lines(acl2)
